@@ -193,8 +193,20 @@ def fresh(taken, name):
     return name
 
 
-def expected_design(case, mo):
+def invented_names(case, im):
+    """The names the generator gave its inner instance / its units, read off the package (which fresh name is invented is the
+    generator's business; that it is none of the unit's port names is checked in `judge`)."""
+    top = next(m for m in im["pkg"]["modules"] if m["name"] == im["top"])
+    names = [i["n"] for i in top["instances"]]
+    if case["gen"] == "Wrapper" or case["n"] == 1:
+        return {"inner": names[0] if names else "inner"}
+    bases = {n.rsplit("_", 1)[0] for n in names if "_" in n and n.rsplit("_", 1)[1].isdigit()}
+    return {"units": bases.pop() if len(bases) == 1 else "units"}
+
+
+def expected_design(case, mo, im=None):
     """The plain design the theorems describe, in the IR of Sem.src."""
+    given = invented_names(case, im) if im is not None else {}
     unit = case["unit"]
     ports = unit_ports(unit)
     taken = {p[0] for p in ports}
@@ -218,9 +230,9 @@ def expected_design(case, mo):
         return {"k": "sig", "n": f"chain{net['chain']}#"}
 
     if case["gen"] == "Wrapper" or case["n"] == 1:
-        insts.append({"n": fresh(taken, "inner"), "of": of, "conns": [[p[0], conn(p[0], {"port": p[0]})] for p in ports]})
+        insts.append({"n": given.get("inner") or fresh(taken, "inner"), "of": of, "conns": [[p[0], conn(p[0], {"port": p[0]})] for p in ports]})
     else:
-        base = fresh(taken, "units")
+        base = given.get("units") or fresh(taken, "units")
         for k, row in enumerate(mo["units"]):
             insts.append({"n": f"{base}_{k}", "of": copy.deepcopy(of), "conns": [[p, conn(p, net)] for p, net in row]})
         sigs += [{"n": f"chain{j}#", "w": 1, "port": False, "dir": "none"} for j in range(case["n"] - 1)]
@@ -319,6 +331,9 @@ def judge(case, im, mo, sem):
     if not accept:
         yield ("pred", {"why": "a series pair that cannot be wired (bus series port) produced a module", "top": im["top"]})
         return
+    for what, nm in invented_names(case, im).items():
+        if nm in {p[0] for p in unit_ports(case["unit"])}:
+            yield ("pred", {"why": f"the name the generator chose for its {what} ({nm}) is a port of the unit"})
     bad = direct_reading(case, im)
     if bad:
         yield ("pred", {"why": "documented topology violated: " + bad})
@@ -337,7 +352,7 @@ def run_cases(ctx, cases):
     lines, idx = [], []
     for c, im, mo in zip(cases, impls, mos):
         if "pkg" in im and mo.get("accept", True):
-            exp = expected_design(c, mo)
+            exp = expected_design(c, mo, im)
             idx.append(len(lines))
             lines.append({"prop": "SEM", "op": "sem", "top": "S#", "design": exp, "pkg": im["pkg"], "pkg_top": im["top"]})
         else:
